@@ -361,6 +361,34 @@ func Harness_C10_mute_unmute() {
 	verifReach("end")
 }
 
+// un-muting one's own 'me' topic ("on+en" to every contact) while online: muting had reset the whole contact table
+// to offline, so the un-muted user has to learn again who is online, and the partner learns that the user is online.
+func Harness_C10_me_unmute_resyncs() {
+	verifNewStore()
+	hub := verifInitGlobals()
+	ua, ub := types.Uid(1), types.Uid(2)
+	a, b := verifMeTopic(ua), verifMeTopic(ub)
+	aEnabled := verifNondetBool("aSeesB")
+	a.perSubs[b.name] = perSubsData{online: false, enabled: aEnabled}
+	b.perSubs[a.name] = perSubsData{online: false, enabled: verifNondetBool("bSeesA")}
+	sa := verifNewSession("sid-a", ua, auth.LevelAuth, 32)
+	sb := verifNewSession("sid-b", ub, auth.LevelAuth, 32)
+	a.sessions[sa] = perSessionData{uid: ua}
+	bOnline := verifNondetBool("bOnline")
+	if bOnline {
+		b.sessions[sb] = perSessionData{uid: ub}
+	}
+	a.presUsersOfInterest("on+en", "ua")
+	verifAssert(verifRoute(hub, a, b), "handshake-settles")
+	if bOnline {
+		verifAssert(b.perSubs[a.name].enabled && b.perSubs[a.name].online, "partner-told-online-by-the-unmuted-user")
+		if aEnabled {
+			verifAssert(a.perSubs[b.name].online, "unmuted-user-learns-that-the-partner-is-online")
+		}
+	}
+	verifReach("end")
+}
+
 // ---- (6) receipts and typing notifications relayed to the 'me' topics of subscribers that are not attached
 // (infoSubsOffline, infoCallSubsOffline): only current subscribers whose effective permissions include both
 // presence and read get one, exactly one each, naming the true sender and the recipient's own name for the topic.
